@@ -142,7 +142,7 @@ func (tr *FnTrans) replayTerms(o *Obligation, rt *replayTemplate) (terms []strin
 			return nil, nil
 		}
 	}
-	if strings.HasPrefix(o.Kind, "ensures") {
+	if strings.HasPrefix(o.Kind, "ensures") || strings.HasPrefix(o.Kind, "site-assert") {
 		for _, v := range rt.Outs {
 			evalV(v, "out.")
 		}
